@@ -10,6 +10,8 @@ import Driver.BitW
 import Driver.FSEEnc
 import Driver.HufEnc
 import Driver.LitEnc
+import Driver.SeqEnc
+import Driver.DStream
 
 def main (args : List String) : IO UInt32 := do
   match args with
@@ -25,4 +27,6 @@ def main (args : List String) : IO UInt32 := do
   | ["fseenc"] => Driver.FSEEnc.main; return 0
   | ["hufenc"] => Driver.HufEnc.main; return 0
   | ["litenc"] => Driver.LitEnc.main; return 0
+  | ["seqenc"] => Driver.SeqEnc.main; return 0
+  | ["dstream"] => Driver.DStream.main; return 0
   | _ => IO.eprintln "usage: zvdriver <model>"; return 2
